@@ -375,7 +375,8 @@ def replay(ctx, path):
     with C.Lock():
         T, _ = C.translate_all(ctx)
         C.build_harness(ctx, bins=("impl",))
-    a, b = C.run_impl(ctx, [req])[0], C.run_driver(ctx, [req])[0]
+    hist = (r.get("witness") or {}).get("history") or []     # requests answered before it by the same process
+    a, b = C.run_impl(ctx, hist + [req])[-1], C.run_driver(ctx, hist + [req])[-1]
     print("request:", req[:300]); print("implementation:", unhex_text(a)[:600] if a.startswith("ok") else a[:300])
     print("model:", unhex_text(b)[:600] if b.startswith("ok") else b[:300])
     return 0 if equal(a, b) else 1
